@@ -480,3 +480,179 @@ Proof.
   all: try (left; repeat split; auto; lia).
   all: right; repeat split; auto; lia.
 Qed.
+
+(* ---------- C09, liveness ---------- *)
+(* a thread that owns the mutex can always take its next step *)
+Lemma holder_enabled n progs s a c : wf_prog n progs = true -> R n progs s -> mtx (gl s) = Some a -> enabledB s a c.
+Proof.
+  intros Hwf HR Hm. pose proof (R_inv _ _ _ Hwf HR) as HI.
+  pose proof (I_held _ _ HI a Hm) as Hh. unfold pcof in Hh.
+  destruct (nth_error (thr s) a) as [l|] eqn:Hl; [|discriminate].
+  assert (exists r, tstep a c (gl s) l = Some r) as [r Hr]; [|exists l, r; auto].
+  destruct l as [pr p lg ar dr p0]. cbn in Hh. unfold tstep. cbn [at_ prog].
+  destruct p; try discriminate; eexists; reflexivity.
+Qed.
+
+(* no lost wake-up: a thread blocked in cv.wait whose generation has passed has been notified,
+   or the owner of the mutex is the last arriver about to notify, and it can move *)
+Lemma no_lost_wakeup n progs s u l : wf_prog n progs = true -> R n progs s ->
+  nth_error (thr s) u = Some l -> at_ l = B_woken -> lgen l <> generation (gl s) ->
+  ~ In u (sleepers (gl s)) \/
+  exists a, mtx (gl s) = Some a /\ is_notify (pcof (thr s) a) = true /\ enabledB s a 0.
+Proof.
+  intros Hwf HR Hl Hpc Hg. destruct (in_dec Nat.eq_dec u (sleepers (gl s))) as [Hin|Hnin]; [right|left; exact Hnin].
+  destruct (I_wake _ _ (R_inv _ _ _ Hwf HR) u l Hl Hin Hg) as [a [Ha Hn]].
+  exists a. repeat split; auto. eapply holder_enabled; eauto.
+Qed.
+
+(* retry exit: once its generation has passed, the wake-up step of a waiter leaves the wait loop *)
+Lemma woken_exits t c g l g' l' es : at_ l = B_woken -> lgen l <> generation g ->
+  tstep t c g l = Some (g', l', es) -> at_ l' = B_unlock.
+Proof.
+  intros Hpc Hg Hs. destruct l as [pr p lg ar dr p0]. cbn in Hpc, Hg. subst p.
+  unfold tstep in Hs. cbn [at_ prog lgen] in Hs.
+  destruct (_ || _); [|discriminate]. destruct (mtx g); [discriminate|].
+  inversion Hs; subst. cbn. unfold pred. destruct (Z.eqb_spec lg (generation g)); [contradiction|reflexivity].
+Qed.
+(* ... and a notified waiter is enabled as soon as the mutex is free *)
+Lemma notified_enabled s t l : nth_error (thr s) t = Some l -> at_ l = B_woken ->
+  ~ In t (sleepers (gl s)) -> mtx (gl s) = None -> enabledB s t 0.
+Proof.
+  intros Hl Hpc Hn Hm. destruct l as [pr p lg ar dr p0]. cbn in Hpc. subst p.
+  eexists. unfold tstep. cbn [at_ prog lgen].
+  assert (mem t (sleepers (gl s)) = false) as ->.
+  { destruct (mem t (sleepers (gl s))) eqn:E; [apply mem_In in E; contradiction|reflexivity]. }
+  rewrite Hm. cbn. eexists. split; [exact Hl|reflexivity].
+Qed.
+
+(* a thread in a state where nothing can move without a spurious wake-up *)
+Lemma quiescent_thread n progs s t l : wf_prog n progs = true -> R n progs s -> quiescentB s ->
+  nth_error (thr s) t = Some l ->
+  fin l = true \/
+  (at_ l = B_woken /\ In t (sleepers (gl s)) /\ lgen l = generation (gl s) /\
+   Z.of_nat (arr l) = generation (gl s) + 1).
+Proof.
+  intros Hwf HR HQ Hl. pose proof (R_inv _ _ _ Hwf HR) as HI.
+  assert (Hfree : mtx (gl s) = None).
+  { destruct (mtx (gl s)) as [a|] eqn:Hm; [|reflexivity].
+    exfalso. apply (HQ a 0%nat); [lia|]. eapply holder_enabled; eauto. }
+  assert (Hdis : tstep t 0 (gl s) l = None).
+  { destruct (tstep t 0 (gl s) l) as [r|] eqn:Hs; [|reflexivity].
+    exfalso. apply (HQ t 0%nat); [lia|]. exists l, r. auto. }
+  pose proof (I_thrd _ _ HI t l Hl) as [_ _ _ Tlg _ _ _ _ _ _ _].
+  pose proof (I_wake _ _ HI t l Hl) as HWK.
+  destruct l as [pr p lg ar dr p0]. unfold tstep in Hdis. cbn [at_ prog lgen arr] in *.
+  destruct p; try discriminate; try (rewrite Hfree in Hdis; discriminate).
+  - destruct pr; [left; reflexivity|discriminate].
+  - rewrite Hfree in Hdis. destruct (dec (count (gl s)) =? 0); discriminate.
+  - right. rewrite Hfree in Hdis. change (Nat.eqb 0 1) with false in Hdis. rewrite orb_false_r in Hdis.
+    destruct (mem t (sleepers (gl s))) eqn:Hm; [|discriminate].
+    apply mem_In in Hm. specialize (Tlg eq_refl).
+    assert (lg = generation (gl s)).
+    { destruct (Z.eq_dec lg (generation (gl s))) as [E|E]; [exact E|].
+      destruct (HWK Hm E) as [a [Ha _]]. congruence. }
+    repeat split; auto. lia.
+Qed.
+
+(* the shape of such a state: every thread has finished its program, or it is sleeping, not
+   notified, in the current generation, and is legitimately waiting for a participant that has
+   not dropped and whose program ended before making that arrival *)
+Lemma quiescent_shape n progs s t l : wf_prog n progs = true -> R n progs s -> quiescentB s ->
+  nth_error (thr s) t = Some l ->
+  fin l = true \/
+  (at_ l = B_woken /\ In t (sleepers (gl s)) /\ lgen l = generation (gl s) /\
+   exists u lu, nth_error (thr s) u = Some lu /\ fin lu = true /\ dropped lu = false /\ (arr lu < arr l)%nat).
+Proof.
+  intros Hwf HR HQ Hl.
+  destruct (quiescent_thread _ _ _ _ _ Hwf HR HQ Hl) as [Hf|[Hpc [Hin [Hg Ha]]]]; [left; exact Hf|right].
+  repeat split; auto.
+  pose proof (R_inv _ _ _ Hwf HR) as HI.
+  pose proof (T_cpos _ _ _ (I_thrd _ _ HI t l Hl) Ha) as Hc.
+  rewrite (I_cnt _ _ HI) in Hc. unfold num_pending in Hc.
+  destruct (sum_pos_ex (pending (generation (gl s))) (thr s)) as [u [lu [Hu Hp]]]; [lia|].
+  exists u, lu. unfold pending in Hp.
+  destruct (dropped lu) eqn:Hd; [lia|].
+  destruct (Z.eqb_spec (Z.of_nat (arr lu)) (generation (gl s) + 1)) as [E|E]; [lia|].
+  pose proof (T_le _ _ _ (I_thrd _ _ HI u lu Hu)).
+  repeat split; auto; [|lia].
+  destruct (quiescent_thread _ _ _ _ _ Hwf HR HQ Hu) as [Hf|[_ [_ [_ Ha']]]]; [exact Hf|contradiction].
+Qed.
+
+(* when every participant that has not dropped has made as many arrivals as t, t is not left behind *)
+Lemma released_when_all_arrived n progs s t l : wf_prog n progs = true -> R n progs s -> quiescentB s ->
+  nth_error (thr s) t = Some l ->
+  (forall u lu, nth_error (thr s) u = Some lu -> dropped lu = false -> (arr l <= arr lu)%nat) ->
+  fin l = true.
+Proof.
+  intros Hwf HR HQ Hl Hall.
+  destruct (quiescent_shape _ _ _ _ _ Hwf HR HQ Hl) as [Hf|[_ [_ [_ [u [lu [Hu [_ [Hd Hlt]]]]]]]]]; [exact Hf|].
+  specialize (Hall u lu Hu Hd). lia.
+Qed.
+
+Lemma fin_todo l : fin l = true -> todo l = [].
+Proof. unfold fin, todo. destruct (at_ l); try discriminate. destruct (prog l); [reflexivity|discriminate]. Qed.
+
+(* generation after generation: if every participant performs the same number K of generations
+   unless it drops out earlier, a state in which nothing moves is one in which everybody finished *)
+Lemma generation_completes n progs K s : wf_prog n progs = true -> balanced K progs = true ->
+  R n progs s -> quiescentB s -> all_fin glob loc fin s = true.
+Proof.
+  intros Hwf Hb HR HQ. unfold all_fin. apply forallb_forall. intros l Hin.
+  apply In_nth_error in Hin. destruct Hin as [t Hl].
+  destruct (quiescent_shape _ _ _ _ _ Hwf HR HQ Hl) as [Hf|[_ [_ [_ [u [lu [Hu [Hfu [Hd Hlt]]]]]]]]]; [exact Hf|exfalso].
+  pose proof (R_inv _ _ _ Hwf HR) as HI.
+  unfold balanced in Hb. rewrite forallb_forall in Hb.
+  destruct (arrivals_count_ops _ _ _ _ _ Hwf HR Hu) as [Pu Lu].
+  destruct (arrivals_count_ops _ _ _ _ _ Hwf HR Hl) as [Pt Lt].
+  pose proof (T_hasdrop _ _ _ (I_thrd _ _ HI u lu Hu) Hd) as Hhd.
+  rewrite (fin_todo _ Hfu) in *. cbn in Hhd, Lu.
+  pose proof (Hb _ (nth_error_In _ _ Pu)) as Bu. rewrite Hhd in Bu. apply Nat.eqb_eq in Bu.
+  pose proof (Hb _ (nth_error_In _ _ Pt)) as Bt.
+  assert (length (prog0 l) <= K)%nat.
+  { destruct (has_drop (prog0 l)); [apply Nat.leb_le in Bt|apply Nat.eqb_eq in Bt]; lia. }
+  lia.
+Qed.
+
+(* ---------- bounded work: without spurious wake-ups every run is finite ---------- *)
+Definition wpc (p : pc) : nat :=
+  match p with
+  | Idle => 0 | B_lock _ => 5 | B_sleep => 4 | B_woken => 3 | B_notify => 2 | B_unlock => 1
+  end%nat.
+Definition wloc (l : loc) : nat := (6 * length (prog l) + wpc (at_ l))%nat.
+Definition mu (s : sysB) : nat := list_sum (map wloc (thr s)).
+Definition no_spurious (c : nat) : bool := negb (Nat.eqb c 1).
+
+Lemma mu_dec s t c : Inv (gl s) (thr s) -> no_spurious c = true -> enabledB s t c ->
+  (mu (stepB s (t, c)) < mu s)%nat.
+Proof.
+  intros HI Hc [l [r [Hl Hs]]]. destruct r as [[g' l'] es].
+  unfold step, sys_step. rewrite Hl, Hs. cbn [fst]. unfold mu. cbn [gl thr].
+  apply (sum_step_dec wloc wloc (thr s) t l l' Hl); [intros; lia|].
+  pose proof (I_thrd _ _ HI t l Hl) as [_ _ _ Tlg _ Tnt _ _ _ _ _].
+  unfold no_spurious in Hc. apply negb_true_iff in Hc.
+  destruct l as [pr p lg ar dr p0]. unfold wloc.
+  unfold tstep in Hs. cbn [at_ prog lgen arr dropped prog0] in *.
+  destruct p.
+  - destruct pr; [discriminate|]. inversion Hs; subst. cbn. lia.
+  - destruct (mtx (gl s)); [discriminate|].
+    destruct (dec (count (gl s)) =? 0); [inversion Hs; subst; cbn; lia|].
+    inversion Hs; subst. cbn [prog at_]. destruct (pred _ _); cbn; lia.
+  - inversion Hs; subst. cbn. lia.
+  - inversion Hs; subst. cbn. lia.
+  - (* the wake-up step under a non-spurious choice: the thread was notified, so its generation has passed *)
+    rewrite Hc, orb_false_r in Hs.
+    destruct (mem t (sleepers (gl s))) eqn:Hm; [discriminate|]. cbn [negb] in Hs.
+    destruct (mtx (gl s)); [discriminate|]. inversion Hs; subst. cbn [prog at_].
+    assert (~ In t (sleepers (gl s))) as Hnin by (intros Hin; apply mem_In in Hin; congruence).
+    specialize (Tnt eq_refl Hnin). specialize (Tlg eq_refl).
+    unfold pred. destruct (Z.eqb_spec lg (generation (gl s))); [lia|]. cbn. lia.
+  - inversion Hs; subst. cbn. lia.
+Qed.
+
+Lemma bounded_work n progs s sc : wf_prog n progs = true -> R n progs s ->
+  sched_ok no_spurious sc -> (moves glob loc tstep s sc <= mu s)%nat.
+Proof.
+  intros Hwf HR Hok. eapply (moves_le_mu glob loc tstep mu Inv Inv_step no_spurious); eauto.
+  - intros s0 t c. apply mu_dec.
+  - apply (R_inv _ _ _ Hwf HR).
+Qed.
